@@ -44,7 +44,10 @@ def _is_label(n):
 
 
 def _label(n):
-    return n[1] if isinstance(n, tuple) else n
+    l = n[1] if isinstance(n, tuple) else n
+    if isinstance(l, tuple) and l and l[0] == "__fs__":      # literal for a frozenset label (cases are literals)
+        return frozenset(l[1:])
+    return l
 
 
 def _labels_of(n, out=None):
@@ -264,6 +267,13 @@ def _gen_labels(ctx):
         for k in ctx.pick((5, 6), (5, 6, 7, 8)):
             yield {"expr": (g,) + tuple(_L(l) for l in (MIXED + INTS)[:k])}
             yield {"expr": (g,) + tuple(_L(l) for l in ((MIXED[:3]) * 3)[:k])}
+    # labels that are hashable but only partially ordered by their own `<` (frozensets, e.g. undirected edges):
+    # pairwise incomparable ones, and a chain mixed with an incomparable one
+    fs = [("__fs__", 0, 1), ("__fs__", 1, 2), ("__fs__", 0, 2), ("__fs__", 0), ("__fs__", 0, 1, 2)]
+    for g in GATESN:
+        for k in (2, 3):
+            for ls in itertools.permutations(fs, k):
+                yield {"expr": (g,) + tuple(("lbl", l) for l in ls)}
 
 
 @clause("C07.gates_on_labels", "C07", gen=_gen_labels, nontrivial=_nontrivial)
